@@ -944,6 +944,23 @@ func extractIntercept(p *pkgs, out string) {
 		}
 		l.printf("/-- interceptedChannel.%s: the continuation argument and the body of that method -/\n", fn.goName)
 		l.printf("def %s : String × String := (%s, %s)\n", fn.lean, leanStr(arg), leanStr(body))
+		// the interceptor's result is the method's result: the call is the sole operand of a return statement
+		direct := false
+		if fd != nil {
+			ast.Inspect(fd, func(n ast.Node) bool {
+				rs, ok := n.(*ast.ReturnStmt)
+				if !ok || len(rs.Results) != 1 {
+					return true
+				}
+				if call, ok := rs.Results[0].(*ast.CallExpr); ok {
+					if se, ok := call.Fun.(*ast.SelectorExpr); ok && se.Sel.Name == fn.intField {
+						direct = true
+					}
+				}
+				return true
+			})
+		}
+		l.printf("/-- `return intch.%s(…)`: the interceptor's results are returned as they are -/\ndef %sResultDirect : Bool := %v\n", fn.intField, strings.TrimSuffix(fn.lean, "Continuation"), direct)
 	}
 	// the "both nil => return the original" conditions
 	for _, fn := range []struct{ goName, lean string }{{"InterceptClientConn", "clientIdentityCond"}, {"InterceptServer", "serverIdentityCond"}, {"WithInterceptor", "registryIdentityCond"}} {
@@ -963,6 +980,28 @@ func extractIntercept(p *pkgs, out string) {
 			continue
 		}
 		l.printf("def %s : String := %s\n", fn.lean, leanStr(be.Op.String()))
+	}
+	// registry views: what WithInterceptor does after the identity test, and what a view does with a registration
+	{
+		pk, fd := p.funcDecl(mod, "WithInterceptor")
+		rest := "?"
+		if fd != nil && len(fd.Body.List) >= 1 {
+			var parts []string
+			for _, st := range fd.Body.List[1:] {
+				parts = append(parts, exprText(pk.Fset, st))
+			}
+			rest = strings.Join(parts, "; ")
+		} else {
+			fail("intercept.go", "registryViewRest", "WithInterceptor not found")
+		}
+		pk2, rd := p.methodDecl(mod, "interceptingRegistry", "RegisterService")
+		body := "?"
+		if rd != nil && rd.Body != nil {
+			body = exprText(pk2.Fset, rd.Body)
+		} else {
+			fail("intercept.go", "registryViewRegister", "interceptingRegistry.RegisterService not found")
+		}
+		l.printf("/-- WithInterceptor after its identity test; the body of the view's RegisterService -/\ndef registryViewRest : String := %s\ndef registryViewRegister : String := %s\n", leanStr(rest), leanStr(body))
 	}
 	must(l.finish(out))
 }
